@@ -772,9 +772,12 @@ impl RHistory {
                 }
             }
         }
-        // C15, promptness: when a whole slice of budget is left over after the flush, every unacknowledged part that was
-        // never transmitted, or whose resend time had elapsed, is in the packets of this flush
-        if !self.is_disc(e) && !was_disc && !self.mons.get(&e).map(|m| m.hostile_in).unwrap_or(false) && budget >= total_payload + 1200 {
+        // C15, promptness: every unacknowledged part that was never transmitted, or whose resend time had elapsed, and
+        // that the budget left over after the flush would have paid for, is in the packets of this flush
+        // (a slice needs 1200 bytes of budget, a small message its own length; the budget only shrinks during a flush, so
+        // what is left at the end was there when the part was looked at)
+        if !self.is_disc(e) && !was_disc && !self.mons.get(&e).map(|m| m.hostile_in).unwrap_or(false) && budget >= total_payload {
+            let leftover = budget - total_payload;
             let unacked = self.world.conn_ref(e).map(|c| c.verif_unacked()).unwrap_or_default();
             let mut late: Option<(Part, Option<u64>)> = None;
             {
@@ -789,7 +792,11 @@ impl RHistory {
                                 None => true,
                                 Some(t) => t != clock && clock - t >= rt,
                             };
-                            if due && last != Some(clock) {
+                            let need = match part.2 {
+                                Some(_) => Some(1200u64),
+                                None => m.and_then(|m| m.sent.get(ch)).and_then(|v| v.get(*id as usize)).map(|x| x.len() as u64),
+                            };
+                            if due && last != Some(clock) && need.map(|n| leftover >= n).unwrap_or(false) {
                                 late = Some((part, last));
                             }
                         }
@@ -843,9 +850,11 @@ impl RHistory {
                 let mut newly: Vec<Part> = vec![];
                 {
                     let m = self.mon(dst);
+                    let now = m.clock;
                     for r in ack_ranges {
-                        for (seq, (_, parts)) in m.sent_parts.iter() {
-                            if r.contains(seq) && tracked.contains(seq) {
+                        for (seq, (at, parts)) in m.sent_parts.iter() {
+                            // the packets the endpoint still tracks, and in any case those it sent less than 3 s ago
+                            if r.contains(seq) && (tracked.contains(seq) || now.saturating_sub(*at) < 3_000_000_000) {
                                 newly.extend(parts.iter().cloned());
                             }
                         }
